@@ -6,8 +6,9 @@
 (*   Prepare     key IDs per request; unsupported algorithms, unsigned or  *)
 (*               unparsable messages fail at once                          *)
 (*   DBFetch     the key database is asked for every wanted key            *)
-(*   EarlyCheck  when the database holds every wanted key within validity, *)
-(*               verify; return if every request passed                    *)
+(*   EarlyCheck  when the database returned as many keys as there are      *)
+(*               requests (the implementation's test for "all satisfied"), *)
+(*               verify with them; return if every request passed          *)
 (*   Fetch(i)    fetchers in configuration order, each asked only for what *)
 (*               is still pending                                          *)
 (*   FinalCheck  verify with everything obtained                           *)
@@ -56,7 +57,7 @@ vars == <<scenario, ringvars>>
 KN(s, k) == s \o "/" \o k
 Look(t, kn) == IF kn \in DOMAIN t THEN t[kn] ELSE NoKey
 Merge(t, u) == [k \in (DOMAIN t) \cup (DOMAIN u) |-> IF k \in DOMAIN u THEN u[k] ELSE t[k]]
-Range(s) == {s[i] : i \in DOMAIN s}
+RangeOf(s) == {s[i] : i \in DOMAIN s}
 SubTab(t, u) == \A k \in DOMAIN t : k \in DOMAIN u /\ u[k] = t[k]
 MinOf(S) == CHOOSE x \in S : \A y \in S : x <= y
 
@@ -116,9 +117,12 @@ DBFetch ==
             /\ stage' = "early" /\ UNCHANGED toperr
     /\ UNCHANGED <<scenario, fi, results, fetched, stored>>
 
+\* The criterion for trying early is the implementation's (number of keys = number of requests); the
+\* property does not depend on it: a result that passes here passes under a key the database supplied,
+\* and everything else goes on to the fetchers.
 EarlyCheck ==
     /\ stage = "early"
-    /\ IF pending = {}
+    /\ IF Cardinality(DOMAIN have) = Len(requests)
        THEN LET r == Check(results, have)
             IN  /\ results' = r
                 /\ stage' = IF \A i \in DOMAIN r : r[i] = "ok" THEN "done" ELSE "fetch"
@@ -167,12 +171,12 @@ RingNext == Prepare \/ DBFetch \/ EarlyCheck \/ (\E i \in DOMAIN fetchers : Fetc
 \* ------------------------------------------------- the property (final state)
 Done == stage = "done"
 
-FetchCalls == {c \in Range(calls) : c.op = "fetch"}
+FetchCalls == {c \in RangeOf(calls) : c.op = "fetch"}
 
 \* keys obtained for a name, read off the history: what the database returned for it and what every
 \* consulted fetcher returned for it (asked for, or volunteered as an extra)
 Obtained(kn) ==
-    (IF dbmode # "fetcherr" /\ (\E c \in Range(calls) : c.op = "dbfetch" /\ kn \in c.keys) /\ kn \in DOMAIN db
+    (IF dbmode # "fetcherr" /\ (\E c \in RangeOf(calls) : c.op = "dbfetch" /\ kn \in c.keys) /\ kn \in DOMAIN db
         THEN {db[kn]} ELSE {})
     \cup {fetchers[c.who].tab[kn] : c \in {c \in FetchCalls : kn \in Answer(fetchers[c.who], c.keys)}}
 
@@ -220,7 +224,7 @@ NothingWithoutKeys == Wanted = {} => calls = <<>>
 \* (5) what was fetched is stored
 StoredFetched == Done /\ ~toperr =>
     \A c \in FetchCalls : \A kn \in Answer(fetchers[c.who], c.keys) :
-        /\ \E s \in Range(calls) : s.op = "store" /\ kn \in s.keys
+        /\ \E s \in RangeOf(calls) : s.op = "store" /\ kn \in s.keys
         /\ kn \in DOMAIN stored /\ stored[kn] \in Obtained(kn)
 NothingInvented == \A kn \in DOMAIN stored : stored[kn] \in Obtained(kn)
 
